@@ -204,6 +204,71 @@ func runC17(ctx *h.Ctx) int {
 		k.Count("fresh_process_triples_equal", 1)
 		k.Nontrivial("fresh", first.Exit, len(first.Out)/128)
 	})
+	// (a+) the whole CLI option set against the library with the same options: -i file / standard input,
+	// -o file / standard output, -f, -l, -lm (markers name the -i path), -optimize, -s, -fc, -cc
+	ctx.RunCases("cli-option-matrix", ctx.N(80, 1500), func(k *h.Case) {
+		prof := profFull()
+		g := spec.NewGen(k.R, prof)
+		prog := g.FullProgram(1 + k.R.IntN(3))
+		src := spec.Source(prog)
+		if k.R.IntN(4) != 0 {
+			src += "\ntext TxtOpt { format(\"Hello there {PLAYER}, this is a fairly long line of text that has to be wrapped somewhere.\") }\n"
+		}
+		k.SetSource(src)
+		dir := workDir(k)
+		defer cleanWork(dir)
+		o := optsOf(prog, k.R.IntN(2) == 0)
+		o.LM = k.R.IntN(2) == 0
+		o.FontID = []string{"", "", "1_latin_rse", "1_latin_frlg", "nope"}[k.R.IntN(5)]
+		o.MaxLen = []int{0, 0, 80, 120, 33}[k.R.IntN(5)]
+		useStdin, useOutFile := k.R.IntN(3) == 0, k.R.IntN(2) == 0
+		if !useStdin {
+			o.Path = cliInputPath(dir)
+		}
+		if k.R.IntN(3) == 0 {
+			// switch values may contain '=' (only the first one separates key and value), and unused switches are harmless
+			sw := map[string]string{"UNUSED_SWITCH": "a=b=c"}
+			for kk, v := range o.Switches {
+				sw[kk] = v
+			}
+			if k.R.IntN(2) == 0 {
+				sw["GAME"] = "RUBY=1"
+			}
+			o.Switches = sw
+		}
+		lib := h.Compile(src, o)
+		cli := runCLIFull(dir, src, prog, o, useStdin, useOutFile)
+		k.Count("evaluations", 2)
+		if cli.Err != nil {
+			k.C.Inconclusive("cannot run CLI: %v", cli.Err)
+			return
+		}
+		desc := fmt.Sprintf("optimize=%v lm=%v f=%q l=%d stdin=%v outfile=%v", o.Optimize, o.LM, o.FontID, o.MaxLen, useStdin, useOutFile)
+		if lib.Panic != nil || cli.Exit > 1 {
+			k.Violation("cli-crash", fmt.Sprintf("[%s] library panic %v / CLI exit %d: %s", desc, lib.Panic, cli.Exit, firstN(cli.Stderr, 200)), nil)
+			return
+		}
+		if lib.OK() != (cli.Exit == 0) {
+			k.Violation("cli-accept-differs", fmt.Sprintf("[%s] library: %q; CLI exit %d: %s", desc, lib.ErrString(), cli.Exit, firstN(cli.Stderr, 200)), nil)
+			return
+		}
+		if lib.OK() && lib.Out != cli.Out {
+			k.Violation("cli-output-differs", fmt.Sprintf("[%s] the CLI output differs from the library output for the same options", desc), map[string]interface{}{"library": lib.Out, "cli": cli.Out})
+			return
+		}
+		if !lib.OK() && !strings.Contains(cli.Stderr, "PORYSCRIPT ERROR: "+lib.Err.Error()) {
+			k.Violation("cli-error-differs", fmt.Sprintf("[%s] library error %q is not what the CLI reports: %s", desc, lib.Err.Error(), firstN(cli.Stderr, 300)), nil)
+			return
+		}
+		k.Count("cli_option_cases_equal", 1)
+		if useStdin {
+			k.Count("cli_stdin_inputs", 1)
+		}
+		if useOutFile {
+			k.Count("cli_output_files", 1)
+		}
+		k.Nontrivial("cliopt", o.Optimize, o.LM, o.FontID, o.MaxLen, useStdin, useOutFile, lib.OK())
+	})
 	// (a'') adversarial history: X compiled in this process right after Y (same words, other font /
 	// other switches / other default length) must equal X compiled in a fresh process
 	ctx.RunCases("adversarial-history", ctx.N(60, 1500), func(k *h.Case) {
